@@ -1,9 +1,378 @@
-//! C11 system half (Engine B): filled in with the system engine.
-use crate::ev::PropCtx;
-use crate::rt::DynSub;
+//! C11 system half (Engine B): what the real server and the real client do with refused packet ids.
+//! A reference client sends a generated id history to the real server (the scripted target must receive exactly the
+//! model-accepted datagrams, and fresh ids afterwards must still arrive); a reference server answers the real client
+//! with a generated reply-id history (the local application must receive exactly the model-accepted replies, and
+//! later fresh ones must still arrive).
+use crate::ev::{Outcome, PropCtx, Tier};
+use crate::props::c11::{concretize, History, Model};
+use crate::real::Proto;
+use crate::refimpl::ss2022::C22;
+use crate::refimpl::Addr;
+use crate::rt::{self, DynSub, SubCheck};
+use crate::sys::cluster::{ClientOnly, Cluster, Spec, Transport};
+use crate::sys::net::{self, UdpTarget};
+use crate::sys::refpeer::{RefUdpClient, RefUdpServer};
+use proptest::prelude::*;
+use proptest::strategy::BoxedStrategy;
+use serde::{Deserialize, Serialize};
+use std::net::{Ipv4Addr, SocketAddr, SocketAddrV4};
+use std::time::{Duration, Instant};
 
-pub fn subs() -> Vec<Box<dyn DynSub>> {
-    vec![]
+#[derive(Clone, Debug, Serialize, Deserialize)]
+pub struct SysCase {
+    pub cipher: C22,
+    pub n_users: u8,
+    pub seed: u64,
+    pub history: History,
 }
 
-pub fn run(_ctx: &mut PropCtx) {}
+fn hist_strategy(max: usize) -> BoxedStrategy<History> {
+    (proptest::bool::weighted(0.3), proptest::collection::vec(crate::props::c11::op_strategy_pub(), 1..max)).prop_map(|(top, ops)| History { limit: 0, top, ops }).boxed()
+}
+
+fn case_strategy(tier: Tier) -> BoxedStrategy<SysCase> {
+    let n = if tier == Tier::Quick { 30 } else { 120 };
+    (proptest::sample::select(C22::ALL.to_vec()), 0u8..3, 1u64..1_000_000, hist_strategy(n)).prop_map(|(cipher, n_users, seed, history)| SysCase { cipher, n_users, seed, history }).boxed()
+}
+
+fn spec_of(c: &SysCase) -> Spec {
+    let mut s = Spec::new(Proto::Ss22(c.cipher), Transport::Tcp);
+    s.udp = true;
+    s.n_users = if c.cipher.is_aes() { c.n_users } else { 0 };
+    s.user = (c.seed % 7) as u8;
+    s.seed = c.seed;
+    s.workers = 2 + (c.seed % 5) as u8;
+    s
+}
+
+fn payload_for(k: usize, id: u64) -> Vec<u8> {
+    let mut v = format!("dgram#{}#", k).into_bytes();
+    v.extend_from_slice(&id.to_be_bytes());
+    v
+}
+
+fn model_bits(ids: &[u64]) -> Vec<bool> {
+    let mut m = Model::default();
+    ids.iter().map(|id| m.step(*id, u64::MAX)).collect()
+}
+
+fn classify(out: &mut Outcome, ids: &[u64], bits: &[bool]) {
+    let rejected_then_accepted = bits.iter().position(|b| !*b).map(|p| bits[p..].iter().any(|b| *b)).unwrap_or(false);
+    out.weight = ids.len() as u64;
+    if rejected_then_accepted {
+        let s: String = bits.iter().map(|b| if *b { '1' } else { '0' }).collect();
+        out.nontrivial(s);
+        out.label("reject-then-accept");
+    }
+    if bits.iter().any(|b| !*b) {
+        out.label("has-refused-id");
+    }
+}
+
+/// Reference client -> real server.
+pub struct ServerSession;
+
+fn exec_server(c: &SysCase) -> (Outcome, bool) {
+    let mut out = Outcome::new();
+    let (_, ids) = concretize(&c.history);
+    let bits = model_bits(&ids);
+    classify(&mut out, &ids, &bits);
+    let spec = spec_of(c);
+    let mut cl = match Cluster::start(&spec) {
+        Ok(cl) => cl,
+        Err(e) => {
+            out.fail("server-session/start-up", format!("cluster did not start: {}", e));
+            return (out, true);
+        }
+    };
+    let target = UdpTarget::spawn(0, false);
+    let taddr = Addr::V4([127, 0, 0, 1], target.port);
+    let rc = match RefUdpClient::new(&cl.cred, cl.server_port, 0x5e55_0000_0000_0000 ^ c.seed) {
+        Ok(rc) => rc,
+        Err(e) => {
+            out.fail("server-session/harness", e);
+            return (out, false);
+        }
+    };
+    for (k, id) in ids.iter().enumerate() {
+        rc.send(*id, &taddr, &payload_for(k, *id));
+        std::thread::sleep(Duration::from_millis(2));
+    }
+    let want: Vec<Vec<u8>> = ids.iter().enumerate().filter(|(k, _)| bits[*k]).map(|(k, id)| payload_for(k, *id)).collect();
+    let t0 = Instant::now();
+    while target.received().len() < want.len() && t0.elapsed() < Duration::from_millis(if rt::failed_already() { 800 } else { 2500 }) {
+        std::thread::sleep(Duration::from_millis(5));
+    }
+    std::thread::sleep(Duration::from_millis(60));
+    let got: Vec<Vec<u8>> = target.received().into_iter().map(|(_, d)| d).collect();
+    let mut soft = false;
+    // anything delivered that the model refuses (or delivered twice) is a definite violation
+    for (i, d) in got.iter().enumerate() {
+        let k = ids.iter().enumerate().position(|(k, id)| payload_for(k, *id) == *d);
+        match k {
+            None => {
+                out.fail("server-session/altered-datagram", format!("target received a datagram nobody sent: {}", crate::ev::hex(&d[..d.len().min(32)])));
+            }
+            Some(k) if !bits[k] => {
+                out.fail(
+                    "server-session/refused-id-was-forwarded",
+                    format!("datagram {} with packet id {} must be refused (history {:?}) but reached the target", k, ids[k], &ids[..=k]),
+                );
+            }
+            Some(k) if got[..i].contains(d) => {
+                out.fail("server-session/forwarded-twice", format!("datagram {} with packet id {} reached the target twice", k, ids[k]));
+            }
+            _ => {}
+        }
+    }
+    if !out.failed() {
+        if let Some(k) = (0..ids.len()).find(|k| bits[*k] && !got.contains(&payload_for(*k, ids[*k]))) {
+            soft = true;
+            out.fail(
+                "server-session/acceptable-id-not-forwarded",
+                format!(
+                    "datagram {} with packet id {} is acceptable (model) but never reached the target; {} of {} acceptable datagrams arrived; history prefix {:?}\n{}",
+                    k,
+                    ids[k],
+                    got.len(),
+                    want.len(),
+                    &ids[..=k.min(30)],
+                    crate::ev::truncate(&cl.logs(6), 1200)
+                ),
+            );
+        }
+    }
+    // afterwards: the session is still usable (a refusal must not have ended it)
+    if !out.failed() {
+        let mx = ids.iter().copied().filter(|i| *i < u64::MAX).max().unwrap_or(0);
+        if mx < u64::MAX - 3 {
+            let before = target.received().len();
+            for j in 1..=2u64 {
+                rc.send(mx + j, &taddr, &payload_for(10_000 + j as usize, mx + j));
+                std::thread::sleep(Duration::from_millis(3));
+            }
+            let t0 = Instant::now();
+            while target.received().len() < before + 2 && t0.elapsed() < Duration::from_millis(if rt::failed_already() { 800 } else { 2500 }) {
+                std::thread::sleep(Duration::from_millis(5));
+            }
+            if target.received().len() < before + 2 {
+                soft = true;
+                out.fail(
+                    "server-session/session-dead-after-refusal",
+                    format!(
+                        "after the history (with {} refused ids) fresh packet ids {} and {} of the same session no longer reach the target\n{}",
+                        bits.iter().filter(|b| !**b).count(),
+                        mx + 1,
+                        mx + 2,
+                        crate::ev::truncate(&cl.logs(6), 1200)
+                    ),
+                );
+            }
+        }
+    }
+    if let Err(h) = cl.health() {
+        soft = false;
+        out.fail("server-session/process-or-task-died", h);
+    }
+    (out, soft)
+}
+
+impl SubCheck for ServerSession {
+    type Case = SysCase;
+    fn name(&self) -> &'static str {
+        "server-session"
+    }
+    fn strategy(&self, tier: Tier) -> BoxedStrategy<SysCase> {
+        case_strategy(tier)
+    }
+    fn exec(&self, c: &SysCase) -> Outcome {
+        let (mut out, mut soft) = exec_server(c);
+        let mut n = 0;
+        while out.failed() && soft && n < 2 && !rt::failed_already() {
+            n += 1;
+            let (o2, s2) = exec_server(c);
+            if !o2.failed() {
+                let mut o2 = o2;
+                o2.label("deadline-miss-not-confirmed");
+                return o2;
+            }
+            out = o2;
+            soft = s2;
+        }
+        out
+    }
+    fn workers(&self) -> usize {
+        (rt::threads() / 2).clamp(1, 8)
+    }
+    fn max_shrink_iters(&self) -> u32 {
+        30
+    }
+    fn confirm_runs(&self) -> u32 {
+        2
+    }
+}
+
+/// Reference server -> real client.
+pub struct ClientReplies;
+
+fn reply_payload(k: usize, j: usize, pid: u64) -> Vec<u8> {
+    let mut v = format!("reply#{}#{}#", k, j).into_bytes();
+    v.extend_from_slice(&pid.to_be_bytes());
+    v
+}
+
+fn exec_client(c: &SysCase) -> (Outcome, bool) {
+    let mut out = Outcome::new();
+    let (_, ids) = concretize(&c.history);
+    let bits = model_bits(&ids);
+    classify(&mut out, &ids, &bits);
+    let spec = spec_of(c);
+    let cred = spec.cred();
+    let mx = ids.iter().copied().filter(|i| *i < u64::MAX).max().unwrap_or(0);
+    let fresh: Vec<u64> = if mx < u64::MAX - 3 { vec![mx + 1, mx + 2] } else { vec![] };
+    let port = crate::sys::free_port();
+    let rs = match RefUdpServer::spawn(&cred, port, 0x5e4f_0000_0000_0000 ^ c.seed, vec![ids.clone(), fresh.clone()], reply_payload) {
+        Ok(rs) => rs,
+        Err(e) => {
+            out.fail("client-replies/harness", e);
+            return (out, true);
+        }
+    };
+    let mut co = match ClientOnly::start(&spec, port) {
+        Ok(co) => co,
+        Err(e) => {
+            out.fail("client-replies/start-up", format!("client did not start: {}", e));
+            return (out, true);
+        }
+    };
+    let app = net::udp_socket(Duration::from_millis(30));
+    let client = SocketAddr::V4(SocketAddrV4::new(Ipv4Addr::LOCALHOST, co.client_port));
+    let taddr = Addr::V4([127, 0, 0, 1], 9);
+    let recv_for = |dur: Duration, want: usize| -> Vec<Vec<u8>> {
+        let t0 = Instant::now();
+        let mut v = vec![];
+        let mut buf = vec![0u8; 70000];
+        let mut last = Instant::now();
+        while t0.elapsed() < dur {
+            if let Ok((n, _)) = app.recv_from(&mut buf) {
+                if let Some((_, body)) = net::parse_socks5_udp(&buf[..n]) {
+                    v.push(body);
+                } else {
+                    v.push(buf[..n].to_vec());
+                }
+                last = Instant::now();
+            }
+            if v.len() >= want && last.elapsed() > Duration::from_millis(80) {
+                break;
+            }
+        }
+        v
+    };
+    let wait = Duration::from_millis(if rt::failed_already() { 900 } else { 3000 });
+    let _ = app.send_to(&net::socks5_udp(&taddr, b"first"), client);
+    let want: Vec<Vec<u8>> = ids.iter().enumerate().filter(|(j, _)| bits[*j]).map(|(j, id)| reply_payload(0, j, *id)).collect();
+    let got = recv_for(wait, want.len());
+    let mut soft = false;
+    for (i, d) in got.iter().enumerate() {
+        let j = ids.iter().enumerate().position(|(j, id)| reply_payload(0, j, *id) == *d);
+        match j {
+            None => {
+                out.fail("client-replies/altered-reply", format!("the application received a datagram the reference server did not send: {}", crate::ev::hex(&d[..d.len().min(32)])));
+            }
+            Some(j) if !bits[j] => {
+                out.fail("client-replies/refused-id-was-delivered", format!("reply {} with packet id {} must be refused (history {:?}) but reached the application", j, ids[j], &ids[..=j]));
+            }
+            Some(j) if got[..i].contains(d) => {
+                out.fail("client-replies/delivered-twice", format!("reply {} with packet id {} reached the application twice", j, ids[j]));
+            }
+            _ => {}
+        }
+    }
+    if !out.failed() {
+        if let Some(j) = (0..ids.len()).find(|j| bits[*j] && !got.contains(&reply_payload(0, *j, ids[*j]))) {
+            soft = true;
+            out.fail(
+                "client-replies/acceptable-id-not-delivered",
+                format!(
+                    "reply {} with packet id {} is acceptable (model) but never reached the application; {} of {} acceptable replies arrived (reference server decoded {} datagrams, {} undecodable); history prefix {:?}\n{}",
+                    j,
+                    ids[j],
+                    got.len(),
+                    want.len(),
+                    rs.got.lock().unwrap().len(),
+                    rs.undecodable.lock().unwrap().len(),
+                    &ids[..=j.min(30)],
+                    crate::ev::truncate(&co.client.log_tail(6), 1000)
+                ),
+            );
+        }
+    }
+    if !out.failed() && !fresh.is_empty() {
+        let _ = app.send_to(&net::socks5_udp(&taddr, b"second"), client);
+        let got2 = recv_for(wait, 2);
+        let want2: Vec<Vec<u8>> = fresh.iter().enumerate().map(|(j, id)| reply_payload(1, j, *id)).collect();
+        if !want2.iter().all(|w| got2.contains(w)) {
+            soft = true;
+            out.fail(
+                "client-replies/session-dead-after-refusal",
+                format!(
+                    "after the reply history (with {} refused ids) replies with fresh ids {:?} no longer reach the application (got {} datagrams; reference server decoded {} client datagrams)\n{}",
+                    bits.iter().filter(|b| !**b).count(),
+                    fresh,
+                    got2.len(),
+                    rs.got.lock().unwrap().len(),
+                    crate::ev::truncate(&co.client.log_tail(6), 1000)
+                ),
+            );
+        }
+    }
+    if let Err(h) = co.health() {
+        soft = false;
+        out.fail("client-replies/process-or-task-died", h);
+    }
+    (out, soft)
+}
+
+impl SubCheck for ClientReplies {
+    type Case = SysCase;
+    fn name(&self) -> &'static str {
+        "client-replies"
+    }
+    fn strategy(&self, tier: Tier) -> BoxedStrategy<SysCase> {
+        case_strategy(tier)
+    }
+    fn exec(&self, c: &SysCase) -> Outcome {
+        let (mut out, mut soft) = exec_client(c);
+        let mut n = 0;
+        while out.failed() && soft && n < 2 && !rt::failed_already() {
+            n += 1;
+            let (o2, s2) = exec_client(c);
+            if !o2.failed() {
+                let mut o2 = o2;
+                o2.label("deadline-miss-not-confirmed");
+                return o2;
+            }
+            out = o2;
+            soft = s2;
+        }
+        out
+    }
+    fn workers(&self) -> usize {
+        (rt::threads() / 2).clamp(1, 8)
+    }
+    fn max_shrink_iters(&self) -> u32 {
+        30
+    }
+    fn confirm_runs(&self) -> u32 {
+        2
+    }
+}
+
+pub fn subs() -> Vec<Box<dyn DynSub>> {
+    vec![Box::new(ServerSession), Box::new(ClientReplies)]
+}
+
+pub fn run(ctx: &mut PropCtx) {
+    rt::run_sub(ctx, &ServerSession, ctx.tier.pick(60, 800));
+    rt::run_sub(ctx, &ClientReplies, ctx.tier.pick(60, 800));
+}
